@@ -193,8 +193,8 @@ def tlc_model(module, cfg, meta, workers=8, timeout=3600, extra_args=(), want_ou
     if want_output or not ok:
         res["out"] = out
     if not ok:
-        lines = [ln for ln in out.splitlines() if ln.strip() and not NOISE.match(ln)]
-        res["error"] = "\n".join(lines[:40])
+        lines = [ln for ln in out.splitlines() if ln.strip() and not NOISE.match(ln) and not ln.startswith(('"STATE ', '"COVER '))]
+        res["error"] = f"rc={rc}\n" + "\n".join(lines[:40])
     return res
 
 
